@@ -57,10 +57,15 @@ def filter_linear(ctx, n, lo, hi, order, gibbs, kind='tuple', dt=0.01):
     if gibbs is not None:
         kw['remove_gibbs'] = gibbs
     outs = []
+    cut = _cut(ctx, lo, hi, kind)          # one container object, reused for every call as a caller would
+    before = [x for x in cut]
     for rec in (a, b, al * a - b):
         sig = lib.Signal(rec, dt)
-        sig.butter_pass(_cut(ctx, lo, hi, kind), **kw)
+        sig.butter_pass(cut, **kw)
         outs.append(sig)
+    ctx.claim('cut_off_container_not_modified', all((x is None and y is None) or (x is not None and y is not None and
+                                                     float(x) == float(y)) for x, y in zip(before, [x for x in cut])),
+              [x for x in cut])
     ya, yb, yc = [s_.values for s_ in outs]
     ctx.observe('ya_mid', ya[n // 2])
     ctx.claim('length_preserved', len(ya) == n and outs[0].npts == n, (len(ya), outs[0].npts))
